@@ -107,6 +107,10 @@ def main(tier, seed):
         cases = [("valid", "generated valid schema", G.render(S, tail_remarks=(k % 2 == 0)), {})]
         if k == 0:
             cases += catalogue
+            # and a corpus of valid schemas that use what the generator does not produce (chained USE with AS, every
+            # REPEAT control, recursion through a SELECT, nested functions, ALIAS / QUERY, redeclared attributes ...)
+            for pth in sorted(glob.glob(os.path.join(VERIF, "corpus", "C04", "valid", "*.exp"))):
+                cases.append(("valid", "corpus/C04/valid/" + os.path.basename(pth), open(pth).read(), {}))
         if k % 5 == 1:
             # multi-schema file with USE FROM
             S2 = G.gen_schema(r, name="gen_%d_b" % k, n_ent=3, n_types=2)
